@@ -44,9 +44,73 @@ pub struct Case {
     /// into a later simulation of the same process)
     #[serde(default)]
     pub emit_at_end: bool,
+    /// additionally run a small network built from an NDL description whose modules enumerate their gates and pick
+    /// one with the seeded RNG: the order in which a description's gates are created is part of the behaviour
+    #[serde(default)]
+    pub ndl: bool,
 }
 
 pub struct C04;
+
+const NDL_NET: &str = r#"
+entry: Net
+modules:
+  Net:
+    submodules:
+      a: Station
+      b: Station
+      c: Station
+    connections:
+    - peers: [a/east, b/west]
+    - peers: [b/east, c/west]
+    - peers: [c/east, a/west]
+  Station:
+    gates:
+    - east
+    - west
+    - north
+    - south[2]
+    - mgmt
+    - aux
+"#;
+
+struct Station;
+impl Module for Station {
+    fn at_sim_start(&mut self, _: usize) {
+        // the enumeration order of the gates, and a choice that depends on it
+        let gates = current().gates();
+        for (k, g) in gates.iter().enumerate() {
+            net::log(&format!("gate {}[{}]", g.name(), g.pos()), k as i64, 0);
+        }
+        let pick = sample::<usize, _>(rand::distr::Uniform::new(0usize, gates.len().max(1)).unwrap());
+        net::log(&format!("picked {}", gates.get(pick).map_or("-", |g| g.name())), pick as i64, 0);
+    }
+}
+impl des::net::ndl::RegistryCreatable for Station {
+    fn create(_: &ObjectPath, _: &str) -> Self {
+        Station
+    }
+}
+struct NetRoot;
+impl Module for NetRoot {}
+impl des::net::ndl::RegistryCreatable for NetRoot {
+    fn create(_: &ObjectPath, _: &str) -> Self {
+        NetRoot
+    }
+}
+
+/// The log of the NDL-built network under the given seed.
+fn ndl_trace(seed: u64) -> Vec<Rec> {
+    net::log_clear();
+    let def: des::net::ndl::Def = serde_yml::from_str(NDL_NET).expect("fixed description parses");
+    let mut sim = Sim::new(());
+    let mut reg = des::net::ndl::Registry::new().symbol::<NetRoot>("Net").symbol::<Station>("Station");
+    sim.nodes_from_ndl(&def, &mut reg).expect("fixed description builds");
+    let rt = Builder::seeded(seed).quiet().max_itr(10_000).build(sim.freeze());
+    let res = rt.run();
+    drop(res);
+    net::log_take()
+}
 
 struct SyncMod {
     emit_at_end: bool,
@@ -180,6 +244,7 @@ pub struct Trace {
 
 pub fn trace_of(case: &Case, seed: u64) -> Trace {
     let n = case.mods.len().clamp(2, 6);
+    let ndl_log: Vec<Rec> = if case.ndl { ndl_trace(seed) } else { Vec::new() };
     net::log_clear();
     let mut sim = Sim::new(());
     let chords: Vec<(usize, usize)> = case.chords.iter().map(|(a, b)| (*a as usize % n, *b as usize % n)).filter(|(a, b)| a != b).collect();
@@ -235,7 +300,7 @@ pub fn trace_of(case: &Case, seed: u64) -> Trace {
     };
     drop(res);
     Trace {
-        log: log.into_iter().map(|r| (r.path, r.kind, r.now, r.a, r.b)).collect(),
+        log: ndl_log.into_iter().map(|r| (format!("ndl:{}", r.path), r.kind, r.now, r.a, r.b)).chain(log.into_iter().map(|r| (r.path, r.kind, r.now, r.a, r.b))).collect(),
         end_ns,
         events,
         ok,
@@ -349,6 +414,9 @@ pub fn run_case(case: &Case) -> Result<(bool, Vec<&'static str>), Failure> {
     if t1.log.windows(2).any(|w| w[0].1 == "twin-draw" && w[1].1 == "twin-draw" && w[0].0 == w[1].0 && w[0].2 == w[1].2 && w[0].3 != w[1].3) {
         labels.push("two-tasks-woken-at-the-same-instant");
     }
+    if case.ndl {
+        labels.push("network-built-from-an-NDL-description");
+    }
     if case.seed == 0 || case.seed == u64::MAX {
         labels.push("boundary-seed");
     }
@@ -367,7 +435,7 @@ impl Prop for C04 {
          synchronous handlers that draw random::<u64>(), evaluate an unbiased three-way select! on the spot and choose the forwarding gate with sample(Uniform), and async modules whose task loops \
          over an unbiased tokio::select! of two sleeps due at the same instant and the inbox, drawing random numbers, with 0..3 further \
          tasks per module that sleep until the very same instants and draw a number after each wake-up, optionally \
-         shutting themselves down and restarting (new runtime, the task starts over); random start delays; generated \
+         shutting themselves down and restarting (new runtime, the task starts over); random start delays; in a quarter of the cases also a three-station ring built from an NDL description whose modules enumerate their gates and pick one at random; generated \
          Builder::seeded seed (0, 1 and u64::MAX over-sampled). Oracle (differential): the complete trace (time, module path, event kind, message ids, random values, select \
          branches, forwarding choices) plus final time, event count and result must be identical for two runs in the same worker process \
          (with an unrelated simulation in between) and, for every 8th case, for a run in a freshly spawned process. Counted, not asserted: a \
@@ -407,8 +475,9 @@ impl Prop for C04 {
             proptest::collection::vec((0u8..6, 0u8..6), 0..4),
             0u8..10,
             proptest::bool::weighted(0.3),
+            proptest::bool::weighted(0.25),
         )
-            .prop_map(|(seed, mods, jitter_us, latency_us, chords, ttl, emit_at_end)| Case {
+            .prop_map(|(seed, mods, jitter_us, latency_us, chords, ttl, emit_at_end, ndl)| Case {
                 seed,
                 mods,
                 jitter_us,
@@ -416,6 +485,7 @@ impl Prop for C04 {
                 chords,
                 ttl,
                 emit_at_end,
+                ndl,
             })
             .boxed()
     }
